@@ -29,7 +29,10 @@ RULE = ("operands n/d built from size classes {tiny, 1 word, 2 words (inline bou
         "{neg,abs,inv,sqr,cubic,pow,signum,mulsign,fract,split,trunc,floor,ceil,round,relax,canon}, mixed {+,-,*,/} with UBig/IBig on "
         "either side, constructors, for RBig and Relaxed, all ownership/assign call forms; register programs of 1-40 steps "
         "feeding results back (values steered with exact fractions so that most steps are defined). Non-trivial := a program "
-        "with >= 4 steps or an operand with a component of >= 3 words; distinct := distinct case lines.")
+        "with >= 4 steps or an operand with a component of >= 3 words; distinct := distinct case lines. Measured on the quick "
+        "tier (seed 20260929): RBig add/sub reach the g = 1 shortcut 355x and the hint branch 172x (remaining common factor "
+        "1: 111, a proper divisor of g: 25, all of g: 36); RBig mul has cross gcds (gcd(a,d) > 1, gcd(b,c) > 1) in all four "
+        "combinations (120/56/48/24); programs: 376 of 1-3 steps, 294 of 4-10, 271 of 11-25, 259 of 26-40.")
 EXPLANATION = ("Theorems (all integers, no size bound): for reduced operands every RBig operation returns a reduced pair whose "
                "value in Lean's Rat equals the exact result (gcd-hint addition, cross-cancelling multiplication/division, "
                "nearest and Euclidean remainders, powers, inverse, mixed integer forms), division by zero is exactly the "
